@@ -51,7 +51,7 @@ Proof. unfold n_of, upd. cbn. apply set_nth_length. Qed.
 Lemma get_upd i j f s : j < n_of s -> get i (upd j f s) = if Nat.eqb i j then f (get j s) else get i s.
 Proof. intros Hj. unfold get, upd. cbn. apply nth_set_nth. exact Hj. Qed.
 
-Lemma get_out i s : n_of s <= i -> get i s = mkinp None CNothing false.
+Lemma get_out i s : n_of s <= i -> get i s = mkinp None CNothing false false.
 Proof. intros H. unfold get. apply nth_overflow. exact H. Qed.
 
 Lemma set_nth_out {A} i (x : A) l : length l <= i -> set_nth i x l = l.
